@@ -54,6 +54,8 @@ var c08fixed = []struct {
 	// execution order of the imports differs from their source order: the first import in the source sits in a function
 	// called later / in a branch never taken, the import that runs first comes later in the source and writes
 	{"global (ID, TICK)\nTICK()\nlate := func() {\n  return import(\"plugins\")\n}\nvar never\nif ID < 0 {\n  never = import(\"strings\")\n}\np := import(\"plugins\")\nkey := \"k\" + ID\np.registry[key] = true\np.nested.inner[key] = ID\np.nested.arr[0][key] = ID\np.state.n += ID + 1\np.log[0] += 10\np.buf[0] = 7\np.list = append(p.list, ID)\ns := import(\"strings\")\ns.Marker = ID\ns.nested = {id: ID}\nTICK()\nq := late()\nreturn [len(q.registry), len(q.nested.inner), len(q.nested.arr[0]), q.state.n == ID + 1, q.log[0], q.buf[0], len(q.list), q.registry[key], import(\"strings\").Marker == ID, import(\"strings\").nested.id == ID, never]", nil, []string{"plugins", "strings"}},
+	// caught runtime errors (which wrap process-wide error values) are re-labelled with New / compared / formatted
+	{"global (ID, TICK)\nTICK()\nout := []\nfor i := 0; i < 4; i++ {\n  try {\n    x := 1 / (i - i)\n  } catch e {\n    w := e.New(\"ctx \" + ID)\n    out = append(out, [e.Message, w.Message, string(e), string(w), isError(w, e), isError(e, ZeroDivisionError)])\n  }\n  try {\n    throw TypeError\n  } catch e {\n    out = append(out, string(e.New(\"t\" + ID)), e.Message)\n  }\n  try {\n    y := [1][5]\n  } catch e {\n    out = append(out, e.New(\"idx\" + ID).Message, e.Message, e.Name)\n  }\n  try {\n    throw error(\"own \" + ID)\n  } catch e {\n    out = append(out, e.New(\"again\").Message, e.Message)\n  }\n  TICK()\n}\nreturn out", nil, nil},
 	{"global (ID, TICK, PANIC)\nTICK()\ntry {\n  PANIC()\n} catch e {\n  TICK()\n  return sprintf(\"%v\", e.Message)\n}", nil, nil},
 }
 
@@ -146,6 +148,7 @@ func (m c08) program(c *core.Ctx, src string, mods map[string]string, bm []strin
 		before := string(encodeBytes(bc))
 		// solo outcomes per id (ids matter only for programs using ID)
 		solo := map[int]canon.Outcome{}
+		stuck := false
 		soloFor := func(id int) canon.Outcome {
 			if !usesID {
 				id = 0
@@ -157,12 +160,19 @@ func (m c08) program(c *core.Ctx, src string, mods map[string]string, bm []strin
 			vm.SetRecover(true)
 			o := c08run(vm, bc, id, nil, args)
 			solo[id] = o
+			if o.Kind == "unabortable" && !stuck {
+				stuck = true
+				c.Violation("C08|solo-run-stuck|"+fmt.Sprintf("%x", hashStr(src)), "a run of the program alone neither returns nor reacts to Abort (the programs used here finish in milliseconds)", c08wit{Src: src, Modules: mods, Decoded: decoded, Why: "solo run stuck in native code", Solo: o})
+			}
 			return o
 		}
 		for _, n := range []int{2, 8, 32} {
 			// pre-compute solo outcomes sequentially
-			for id := 0; id < n; id++ {
+			for id := 0; id < n && !stuck; id++ {
 				soloFor(id)
+			}
+			if stuck {
+				return
 			}
 			for _, reuse := range []bool{false, true} {
 				// decoded bytecode: every concurrent round gets its own freshly decoded copy that no VM has run yet
